@@ -73,10 +73,14 @@ def lattice_cases(db, cid, e0, dt, syden, have):
 
 def stat_case(cid, rows, off, scale, idx):
     levels = {}
+    orphans = set()
     for e, n, v in rows:
+        if e not in off:
+            orphans.add(idx(e))        # a crossing row of an interval that has no offset
+            continue
         levels.setdefault(n, []).append((idx(e), int(round((off[e] + v) * scale))))
     lv = [{"h": n, "s": [s for s, _ in sorted(r)], "v": [v for _, v in sorted(r)]} for n, r in sorted(levels.items())]
-    return {"id": cid, "levels": lv, "intervals": sorted({idx(e) for e in off}), "slack": 4}
+    return {"id": cid, "levels": lv, "intervals": sorted({idx(e) for e in off}), "slack": 4, "orphans": sorted(orphans)}
 
 
 def nondyadic_cases(db, cid, e0, dt, syden, stepf, have):
@@ -164,6 +168,13 @@ def _worker(batch):
                 if have:
                     prov, stat = lattice_cases(wf.db, "beh%d dt%d grid%g" % (idx, dt, delta), wf.pres.e0, dt,
                                                beh["syden"], have)
+                    # a second set-zeta-grid at another step: refused today (the grid is set once); if a tree
+                    # accepts it, the curve tables must be those of the NEW grid (or gone), never stale rows
+                    delta2 = {1.0: 0.5, 0.5: 2.0, 2.0: 1.0}[delta]
+                    if wf.run("set-zeta-grid", "-d", repr(delta2)).ok:
+                        p2, _ = lattice_cases(wf.db, "beh%d dt%d grid%g regridded to %g" % (idx, dt, delta, delta2),
+                                              wf.pres.e0, dt, beh["syden"], have)
+                        prov += p2
                 else:
                     prov, stat = [], []
             finally:
@@ -191,7 +202,7 @@ def collect(chk, tier, n_quick=60, n_thorough=600):
                 prov += p
                 stat += s
                 for c in p + s:
-                    meta[c["id"]] = {"beh": behs[idx], "dt": dt, "delta": delta, "e0": e0}
+                    meta[c["id"]] = {"beh": behs[idx], "idx": idx, "dt": dt, "delta": delta, "e0": e0}
     return prov, stat, meta
 
 
@@ -268,8 +279,10 @@ def c13(chk, tier):
     for k, s, j, step in ([(1, 8.0, 5.0, 1.0)] if q else [(1, 8.0, 5.0, 1.0), (2, 8.0, 5.0, 1.0), (2, 4.0, 2.0, 0.5), (1, 4.0, 8.0, 2.5)]):
         p, _ = field_cases(k, s, j, step)
         fprov += p
+        for c in p:
+            meta[c["id"]] = {"field": [k, s, j, step]}
     # grid steps that are not binary fractions, levels ON grid lines (max/step an integer up to rounding)
-    behs = sorted({json.dumps(m["beh"], sort_keys=True) for m in meta.values()})
+    behs = sorted({json.dumps(m["beh"], sort_keys=True) for m in meta.values() if "beh" in m})
     behs = [json.loads(b) for b in behs][:12 if q else 80]
     jobs = [(i, b, st, base) for i, b in enumerate(behs) for st, base in
             (((1, 10), 0), ((3, 10), -379)) + (() if q else (((1, 5), 60), ((1, 10), -1203)))]
@@ -279,7 +292,7 @@ def c13(chk, tier):
                 chk.violation("workflow at grid step %s/%s failed: %s" % (st[0], st[1], err), {"kind": "prov", "detail": err})
             fprov += p
             for c in p:
-                meta[c["id"]] = {"beh": behs[idx], "step": list(st), "base": base}
+                meta[c["id"]] = {"beh": behs[idx], "idx": idx, "step": list(st), "base": base}
     fails = validate(chk, "TraceProvenance", prov + fprov, "TraceProvenance on %d cases" % (len(prov) + len(fprov)))
     for c in prov + fprov:
         chk.count("evaluations", len(c["rows"]))
@@ -297,9 +310,16 @@ def stationarity_on_tables(chk, tier):
     q = tier == "quick"
     prov, stat, meta = collect(chk, tier, n_quick=30, n_thorough=300)
     fstat = []
-    for k, s, j, step in ([(2, 8.0, 5.0, 1.0)] if q else [(1, 8.0, 5.0, 1.0), (2, 8.0, 5.0, 1.0), (2, 4.0, 2.0, 0.5)]):
+    # the grid step 0.25 mm puts more than 1000 levels under the field recessions (1150 / 1551): every one
+    # of them must enter the least-squares problem
+    for k, s, j, step in ([(2, 8.0, 5.0, 1.0), (2, 8.0, 5.0, 0.25)] if q else
+                          [(1, 8.0, 5.0, 1.0), (2, 8.0, 5.0, 1.0), (2, 4.0, 2.0, 0.5), (1, 8.0, 5.0, 0.25),
+                           (2, 8.0, 5.0, 0.25), (2, 8.0, 5.0, 0.1)]):
         _, st = field_cases(k, s, j, step)
         fstat += st
+        for c in st:
+            meta[c["id"]] = {"field": [k, s, j, step]}
+        chk.cov["largest_level_count"] = max(chk.cov.get("largest_level_count", 0), max(len(c["levels"]) for c in st))
     fails = validate(chk, "TraceStationary", stat + fstat, "TraceStationary on %d cases" % (len(stat) + len(fstat)))
     for c in stat + fstat:
         chk.count("evaluations", len(c["intervals"]))
@@ -327,3 +347,29 @@ def _report(chk, fails, cases, meta, prefix):
         chk.violation("TLC rejects the tables written for %s: %s (item %s %s)" % (f["id"], f["clause"], f["stretch"], detail),
                       {"kind": "prov", "case_id": f["id"], "clause": f["clause"], "item": f["stretch"], "detail": detail,
                        "workflow": m})
+
+
+def replay_file(chk, rp):
+    """re-create the workflow the case came from, record its tables again and let TLC judge them"""
+    m = rp.get("workflow")
+    if not m:
+        raise SystemExit("replay file has no workflow description; re-run the check")
+    if "field" in m:
+        prov, stat = field_cases(*m["field"])
+    elif "step" in m:
+        _, _, _, prov, err = _nd_worker((m["idx"], m["beh"], tuple(m["step"]), m["base"]))
+        stat = []
+        if err:
+            chk.violation("replayed: workflow failed: %s" % err, rp)
+            return
+    else:
+        (_, _, _, _, prov, stat), = _worker([(m["idx"], m["beh"])])
+    module, cases = ("TraceProvenance", prov) if chk.prop == "C13" else ("TraceStationary", stat)
+    cases = [c for c in cases if c["id"] == rp["case_id"]] or cases
+    fails = validate(chk, module, cases, "replay")
+    chk.count("evaluations"); chk.count("distinct_nontrivial", 2); chk.count("traces_validated_against_impl", len(cases))
+    chk.sample({"case": cases[0]["id"]} if cases else "no case")
+    for f in fails:
+        if f["clause"].startswith(chk.prop):
+            chk.violation("replayed: %s: %s (item %s)" % (f["id"], f["clause"], f["stretch"]), rp)
+            break
